@@ -28,6 +28,7 @@ pub fn defs() -> Vec<ScenDef> {
         d("relock", relock, true),
         d("rwseq", rwseq, false),
         d("stale", stale, false),
+        d("cvpoison", cvpoison, false),
         d("hsmutex", hsmutex, false),
         d("hssem", hssem, false),
     ]
@@ -1501,6 +1502,130 @@ fn stale(x: &mut Exec) -> Res {
     x.wait_all()?;
     if let Some(e) = errs.lock().unwrap().first() {
         return viol(format!("{}: {}", what, e));
+    }
+    Ok(())
+}
+
+
+// ------------------------------------------------------------------------------------ C11 / C13: condvar wait on a mutex that gets poisoned
+/// The notifier sets the flag, notifies and panics while it holds the mutex. Every wait / wait_timeout / wait_while then
+/// returns `Err(PoisonError(guard))` as std does - *holding the mutex*: while a waiter keeps the guard it took out of the
+/// error nobody else may get the lock, and after it dropped it the (poisoned) mutex works as before for everybody.
+fn cvpoison(x: &mut Exec) -> Res {
+    let waiters = x.rng.range(1, 3) as usize;
+    let pair = Arc::new((Mutex::new(0u32), Condvar::new()));
+    let inside = Arc::new(AtomicIsize::new(0));
+    let errs = Arc::new(std::sync::Mutex::new(Vec::<String>::new()));
+    let ready = Arc::new(AtomicUsize::new(0));
+    let mut kinds = vec![];
+    for i in 0..waiters {
+        let (pair, inside, errs, ready) = (pair.clone(), inside.clone(), errs.clone(), ready.clone());
+        let is_co = x.rng.chance(1, 2);
+        let mode = x.rng.below(3); // wait, wait_timeout, wait_while
+        kinds.push((is_co, mode));
+        let hold_us = x.rng.below(1500);
+        x.spawn(&format!("w{}", i), is_co, move |a| {
+            let g0 = match pair.0.lock() {
+                Ok(g) => g,
+                Err(p) => p.into_inner(),
+            };
+            ready.fetch_add(1, SeqCst);
+            a.call("cv_wait", mode);
+            // the guard comes back inside Ok or inside the PoisonError: either way the caller now holds the mutex
+            let mut g = g0;
+            let mut poisoned = false;
+            loop {
+                if *g != 0 {
+                    break;
+                }
+                match mode {
+                    0 => match pair.1.wait(g) {
+                        Ok(g2) => g = g2,
+                        Err(p) => {
+                            poisoned = true;
+                            g = p.into_inner();
+                        }
+                    },
+                    1 => match pair.1.wait_timeout(g, Duration::from_millis(300)) {
+                        Ok((g2, _)) => g = g2,
+                        Err(p) => {
+                            poisoned = true;
+                            g = p.into_inner().0;
+                        }
+                    },
+                    _ => match pair.1.wait_while(g, |v| *v == 0) {
+                        Ok(g2) => g = g2,
+                        Err(p) => {
+                            poisoned = true;
+                            g = p.into_inner();
+                        }
+                    },
+                }
+            }
+            a.ret("cv_wait", mode, poisoned as u64);
+            // we hold the guard: the occupancy monitor says whether we hold the mutex too
+            let n = inside.fetch_add(1, SeqCst) + 1;
+            if n != 1 {
+                errs.lock().unwrap().push(format!("{} parties hold a guard of the mutex at once after a condvar wait returned (poisoned={}): the wait did not re-acquire the mutex", n, poisoned));
+            }
+            *g += 1;
+            nap(hold_us);
+            inside.fetch_sub(1, SeqCst);
+            drop(g);
+        });
+    }
+    let notifier_co = x.rng.chance(1, 2);
+    {
+        let (pair, ready, inside, errs) = (pair.clone(), ready.clone(), inside.clone(), errs.clone());
+        let pre = x.rng.below(800);
+        x.spawn("notifier", notifier_co, move |a| {
+            let t0 = Instant::now();
+            while ready.load(SeqCst) < waiters && t0.elapsed() < Duration::from_secs(4) {
+                nap(50);
+            }
+            nap(pre);
+            a.call("notify_and_panic", 0);
+            let r = std::panic::catch_unwind(std::panic::AssertUnwindSafe(|| {
+                let mut g = pair.0.lock().unwrap();
+                *g = 1;
+                pair.1.notify_all();
+                panic!("poisoning the mutex on purpose (expected)");
+            }));
+            a.ret("notify_and_panic", 0, r.is_err() as u64);
+            // contenders after the poisoning: plain lock sections under the same occupancy monitor
+            for k in 0..4u64 {
+                a.call("lock", k);
+                let g = match pair.0.lock() {
+                    Ok(g) => g,
+                    Err(p) => p.into_inner(),
+                };
+                a.ret("lock", k, 0);
+                let n = inside.fetch_add(1, SeqCst) + 1;
+                if n != 1 {
+                    errs.lock().unwrap().push(format!("{} parties inside the poisoned mutex at once (a waiter holds a guard it got from the condvar)", n));
+                }
+                nap(120);
+                inside.fetch_sub(1, SeqCst);
+                drop(g);
+            }
+        });
+    }
+    x.desc = format!("condvar waiters (co, mode 0 wait / 1 wait_timeout / 2 wait_while) {:?}; the notifier ({}) sets the flag, notifies and panics under the lock", kinds, if notifier_co { "co" } else { "th" });
+    x.wait_all()?;
+    if let Some(e) = errs.lock().unwrap().first() {
+        return viol(format!("Condvar + poisoned Mutex: {}", e));
+    }
+    // the mutex is free again and its counter is sane: lock / unlock still work
+    match pair.0.try_lock() {
+        Err(TryLockError::WouldBlock) => return viol("Condvar + poisoned Mutex: the mutex is still held after every guard was dropped"),
+        _ => {}
+    }
+    let v = match pair.0.lock() {
+        Ok(g) => *g,
+        Err(p) => *p.into_inner(),
+    };
+    if v != 1 + waiters as u32 {
+        return viol(format!("Condvar + poisoned Mutex: value {} after {} waiters each added 1 to the flag value 1 (a lost update: two parties were inside)", v, waiters));
     }
     Ok(())
 }
